@@ -819,6 +819,10 @@ func isCriticalTask(task *Task) bool {
 }
 
 func (m *Manager) transitionTasks(envId uid.ID, tasks Tasks, src string, event string, dest string, commonArgs controlcommands.PropertyMap) error {
+	if len(tasks) == 0 {
+		// nothing to command: a command without targets would never get a response
+		return nil
+	}
 	notify := make(chan controlcommands.MesosCommandResponse)
 	receivers, err := tasks.GetMesosCommandTargets()
 	if err != nil {
